@@ -502,6 +502,63 @@ theorem arr3_nested_duplicate_names_drop_columns :
       = .ok ⟨[(Name.s "a", [Cell.ser [3, 4]])]⟩ := by
   rfl
 
+/-! ### what the canonical multi-index frame and long table contain (validation of the specs) -/
+
+/-- the rows of the multi-index frame holding `X` are keyed `(0,0), (0,1), …, (n-1,t-1)` in
+lexicographic order … -/
+theorem mi_keys_spec {n c t : Nat} {X : Arr3 α} (hX : Rect3 n c t X) (hn : 0 < n) (hc : 0 < c) :
+    (miRows X).map (·.1) = ((List.range n).map (fun i : Nat =>
+      (List.range t).map (fun q : Nat => ((i : Int), (q : Int))))).flatten :=
+  miRows_keys hX hn hc
+
+/-- … and the frame, read column by column, is each variable's series instance after instance:
+column `j` = `X[0][j] ++ X[1][j] ++ …` -/
+theorem mi_columns_spec {n c t : Nat} {X : Arr3 α} (hX : Rect3 n c t X) (hn : 0 < n) (hc : 0 < c) :
+    transposeW c ((miRows X).map (·.2)) = (transposeW c X).map List.flatten := by
+  rw [miRows_vals, rect_nTime hX hn hc, cols_miRows hX]
+
+/-- the long table has exactly one row per (instance, time, variable): `n·t·c` rows with pairwise
+distinct keys (together with `long_rows_complete`: its rows are exactly the cells of the panel) -/
+theorem long_rows_keys_nodup (names : List ν) {n c t : Nat} {X : Arr3 α} (hX : Rect3 n c t X)
+    (hn : 0 < n) (hc : 0 < c) (hl : names.length = c) (hnd : names.Nodup) :
+    ((longRowsM names X).map (fun r => (r.1, r.2.1, r.2.2.1))).Nodup ∧
+    (longRowsM names X).length = (n * t) * c := by
+  have hrows : ∀ r ∈ miRows X, r.2.length = names.length := by
+    intro r hr; rw [hl]; exact miRows_rowsLen hX hn hc r hr
+  have hk := melt_keys names (miRows X) hrows
+  have hkn : ((miRows X).map (·.1)).Nodup :=
+    (miRows_keys_sorted hX hn hc).imp (fun {a b} h => ne_of_keyLt a b h)
+  have hnd2 := nodup_product_keys names _ hnd hkn
+  rw [← hk] at hnd2
+  constructor
+  · unfold longRowsM
+    rw [List.map_map]
+    have : ((fun r : Int × Int × ν × α => (r.1, r.2.1, r.2.2.1)) ∘
+        fun e : ((Int × Int) × ν) × α => (e.1.1.1, e.1.1.2, e.1.2, e.2))
+        = (fun k : (Int × Int) × ν => (k.1.1, k.1.2, k.2)) ∘ (·.1) := rfl
+    rw [this, ← List.map_map]
+    unfold List.Nodup at hnd2 ⊢
+    rw [List.pairwise_map]
+    exact hnd2.imp (by
+      intro a b h e
+      apply h
+      obtain ⟨⟨a1, a2⟩, a3⟩ := a
+      obtain ⟨⟨b1, b2⟩, b3⟩ := b
+      simp only [Prod.mk.injEq] at e ⊢
+      exact ⟨⟨e.1, e.2.1⟩, e.2.2⟩)
+  · unfold longRowsM
+    rw [List.length_map]
+    have h1 := congrArg List.length hk
+    rw [List.length_map] at h1
+    rw [h1]
+    have hlen : (miRows X).length = n * t := by
+      have := congrArg List.length (miRows_keys hX hn hc)
+      rw [List.length_map] at this
+      rw [this]
+      simp [List.length_flatten, List.map_map, Function.comp_def, List.map_const']
+    simp [List.length_flatten, List.map_map, Function.comp_def, List.map_const',
+      hlen, hl, Nat.mul_comm]
+
 /-! ### every path over all five containers -/
 
 /-- A conversion path of ANY length over nested frame, 3-D array, multi-index frame, long table
